@@ -11,19 +11,26 @@ with the schema id stored in its header.  The in-memory catalog (`Directory` tre
 "the leaf of `tree` at that path if it carries files" plus `stale`: Directory objects that are still
 in the `directMap` although they are no longer reachable through `subDirs`.
 
-One definition per Go function, quirks included:
-* `AddTimeBucket` creates each sub-directory BEFORE it checks the parent's `category_name`
-  (a mismatch leaves the new empty directory behind), evaluates `catkeySplit[i]` after the mkdir
-  (index panic when fewer categories than items), refuses to overwrite an existing year file AFTER
+One definition per Go function, quirks included.  Three statements were repaired in the code
+(fix commits "Destroy of a symbol or timeframe forgets the buckets below it", "AddTimeBucket checks
+the key before it creates directories", "catalog structure changes under the root are
+serialized"); the model carries a `Variant` read off the regenerated skeletons, so both the repaired
+and the former behaviour are definitions here and the one in force is the one in the source.
+* `AddTimeBucket` (repaired: after a read-only pass over the key's directory chain that rejects
+  unequal item/category counts and non-matching `category_name`s) creates each sub-directory, then
+  writes/compares the parent's `category_name` (before the repair a mismatch was detected only here
+  and left the new directory behind; `catkeySplit[i]` after the mkdir gave an index panic when there
+  were fewer categories than items), refuses to overwrite an existing year file AFTER
   the directory chain was made, and finally REPLACES the whole subtree of the symbol by a fresh
   `NewDirectory` of the symbol's directory.
 * `load` registers a sub-directory without `category_name` as an empty Directory (it is listed as
   an item of its parent but has no content), and forgets the year files met before a sub-directory
   of the same directory (`d.datafile = nil` in the `ReadDir` loop).
 * `RemoveTimeBucket` removes the last item's directory from disk, then walks up removing every
-  level whose in-memory Directory has no sub-directories left; `removeSubDir` deletes only the
-  `directMap` entry of the removed directory itself (deeper entries stay: a key with fewer than
-  three items leaves stale Directory objects reachable through the `directMap`).
+  level whose in-memory Directory has no sub-directories left; `removeSubDir` deletes the
+  `directMap` entries at or below the removed directory (before the repair only the entry of the
+  removed directory itself: a key with fewer than three items left stale Directory objects
+  reachable through the `directMap`).
 * `AddFile` does not register the year in the catalog when the file already exists on disk.
 Core Lean only.
 -/
@@ -110,13 +117,30 @@ def dlookup (s : St) (p : Path) : Option Rec :=
     | none => none
 
 inductive Res
-  | ok | exists_ | catMismatch | noKey | notInCatalog | colMismatch | timeframe | panicIndex | other
+  | ok | exists_ | catMismatch | noKey | notInCatalog | colMismatch | timeframe | panicIndex | other | keyLen
 deriving DecidableEq, Repr
+
+/-- Which variant of three statements the source implements (read off the regenerated skeletons
+    in `Mkts.CatalogTie`, so that the model follows the code if a repair is reverted):
+    * `deepDelete`: `removeSubDir` deletes every `directMap` entry at or below the removed directory
+      (before the repair: only the entry of the removed directory itself);
+    * `checkFirst`: `AddTimeBucket` compares item/category counts and the on-disk category names
+      BEFORE it creates anything (before the repair: mkdir first, check after);
+    * `serialised`: `AddTimeBucket`, `RemoveTimeBucket`, `GetSubDirectoryAndAddFile` hold the root's
+      `mutMu` for their whole body (concurrent model only). -/
+structure Variant where
+  deepDelete : Bool
+  checkFirst : Bool
+  serialised : Bool
+deriving DecidableEq, Repr
+
+def Variant.repaired : Variant := ⟨true, true, true⟩
+def Variant.original : Variant := ⟨false, false, false⟩
 
 def Res.str : Res → String
   | .ok => "ok" | .exists_ => "err:exists" | .catMismatch => "err:catmismatch" | .noKey => "err:nokey"
   | .notInCatalog => "err:notincatalog" | .colMismatch => "err:colmismatch" | .timeframe => "err:timeframe"
-  | .panicIndex => "panic:index" | .other => "err:other"
+  | .panicIndex => "panic:index" | .other => "err:other" | .keyLen => "err:keylen"
 
 /-! ## `AddTimeBucket` -/
 
@@ -167,8 +191,24 @@ def reloadSymbol (s : String) (c0 : String) (st : St) (disk' : Dir) : St :=
     stale := st.stale.filter (fun e => !(sub.any (fun f => f.1 = e.1 && !f.2.files.isEmpty)))
     disk := disk' }
 
-/-- `(*Directory).AddTimeBucket(tbk, f)` on the root -/
-def addTimeBucket (items cats : List String) (year : Int) (schema : Nat) (st : St) : St × Res :=
+/-- `checkCategoryNameFile(catName, dir)`: a missing directory or file is fine -/
+def checkCategoryNameFile (catName : String) (p : Path) (d : Dir) : Bool :=
+  match find p d with
+  | none => true
+  | some r => match r.cat with
+    | none => true
+    | some c => c = catName
+
+/-- the read-only pass of the repaired `AddTimeBucket` over the key's directory chain
+    (`none` = accepted) -/
+def validateKey (pre : Path) : List String → List String → Dir → Option Res
+  | [], _, d => if checkCategoryNameFile "Year" pre d then none else some .catMismatch
+  | _ :: _, [], _ => some .panicIndex
+  | item :: items, c :: cs, d =>
+    if checkCategoryNameFile c pre d then validateKey (pre ++ [item]) items cs d else some .catMismatch
+
+/-- `AddTimeBucket` from the directory loop on (the whole function before the repair) -/
+def addTimeBucketBody (items cats : List String) (year : Int) (schema : Nat) (st : St) : St × Res :=
   match atbLoop [] items cats st.disk with
   | (d1, some e) => ({ st with disk := d1 }, e)
   | (d1, none) =>
@@ -181,6 +221,15 @@ def addTimeBucket (items cats : List String) (year : Int) (schema : Nat) (st : S
         match items, cats with
         | s :: _, c0 :: _ => (reloadSymbol s c0 st d3, .ok)
         | _, _ => ({ st with disk := d3 }, .panicIndex)
+
+/-- `(*Directory).AddTimeBucket(tbk, f)` on the root -/
+def addTimeBucket (v : Variant) (items cats : List String) (year : Int) (schema : Nat) (st : St) : St × Res :=
+  if v.checkFirst then
+    if cats.length ≠ items.length then (st, .keyLen) else
+    match validateKey [] items cats st.disk with
+    | some e => (st, e)
+    | none => addTimeBucketBody items cats year schema st
+  else addTimeBucketBody items cats year schema st
 
 /-! ## `frontend.Create` -/
 
@@ -199,9 +248,9 @@ def getTimeFrame (items cats : List String) : Res :=
   | none => .panicIndex
   | some tfs => if tfs = "" then .timeframe else if validTF tfs then .ok else .timeframe
 
-def create (items cats : List String) (nowYear : Int) (schema : Nat) (st : St) : St × Res :=
+def create (v : Variant) (items cats : List String) (nowYear : Int) (schema : Nat) (st : St) : St × Res :=
   match getTimeFrame items cats with
-  | .ok => addTimeBucket items cats nowYear schema st
+  | .ok => addTimeBucket v items cats nowYear schema st
   | e => (st, e)
 
 /-! ## `RemoveTimeBucket` / `frontend.Destroy` -/
@@ -210,10 +259,14 @@ def create (items cats : List String) (nowYear : Int) (schema : Nat) (st : St) :
 def hasSubDirs (p : Path) (t : Dir) : Bool :=
   t.any (fun e => e.1.length = p.length + 1 && isPre p e.1)
 
-/-- `parent.removeSubDir(name, directMap)`: `directMap.Delete(path of the child)` and
-    `delete(parent.subDirs, name)`; Directory objects deeper in the dropped subtree that are in the
-    `directMap` stay there (stale) -/
-def removeSubDir (p : Path) (st : St) : St :=
+/-- `parent.removeSubDir(name, directMap)`: `delete(parent.subDirs, name)` and
+    * `deep` (repaired): `directMap.Range` deleting every key at or below the child's path;
+    * before the repair: `directMap.Delete(path of the child)` only — Directory objects deeper in the
+      dropped subtree that are in the `directMap` stay there (stale) -/
+def removeSubDir (deep : Bool) (p : Path) (st : St) : St :=
+  if deep then
+    { st with tree := removeAll p st.tree, stale := st.stale.filter (fun e => !(isPre p e.1)) }
+  else
   let dropped := st.tree.filter (fun e => isPre p e.1 && e.1 != p && !e.2.files.isEmpty
                                           && (find e.1 st.stale).isNone)
   { st with tree := removeAll p st.tree, stale := st.stale.filter (fun e => e.1 != p) ++ dropped }
@@ -223,28 +276,28 @@ def removeDirFiles (p : Path) (st : St) : St := { st with disk := removeAll p st
 
 /-- the bottom-up loop of `RemoveTimeBucket` for levels `k-1 … 0`; `del` = `deleteMap[k]`;
     returns `deleteMap[0]` -/
-def rtbLoop (items : Path) : Nat → Bool → St → St × Bool
+def rtbLoop (deep : Bool) (items : Path) : Nat → Bool → St → St × Bool
   | 0, del, s => (s, del)
   | k + 1, del, s =>
     let p := items.take (k + 1)
     let r1 : St × Bool :=
       if k + 1 = items.length then (removeDirFiles p s, true)
-      else if del then (removeSubDir (items.take (k + 2)) s, false)
+      else if del then (removeSubDir deep (items.take (k + 2)) s, false)
       else (s, false)
     let r2 : St × Bool :=
       if hasSubDirs p r1.1.tree then r1 else (removeDirFiles p r1.1, true)
-    rtbLoop items k r2.2 r2.1
+    rtbLoop deep items k r2.2 r2.1
 
 /-- the descent of `RemoveTimeBucket`: every level must be found in the parent's `subDirs` -/
 def walkOK (t : Dir) (items : Path) : Nat → Bool
   | 0 => true
   | k + 1 => (find (items.take (k + 1)) t).isSome && walkOK t items k
 
-def removeTimeBucket (items : Path) (st : St) : St × Res :=
+def removeTimeBucket (deep : Bool) (items : Path) (st : St) : St × Res :=
   if items.isEmpty then (st, .other) else
   if !(walkOK st.tree items items.length) then (st, .noKey) else
-  let r := rtbLoop items items.length false st
-  if r.2 then (removeSubDir (items.take 1) (removeDirFiles (items.take 1) r.1), .ok)
+  let r := rtbLoop deep items items.length false st
+  if r.2 then (removeSubDir deep (items.take 1) (removeDirFiles (items.take 1) r.1), .ok)
   else (r.1, .ok)
 
 /-! ## `AddFile`, `WriteRecords`, `WriteCSM` -/
@@ -288,7 +341,7 @@ def writeYears (p : Path) : Int → List Int → St → St × Res
 def defaultCats : List String := ["Symbol", "Timeframe", "AttributeGroup"]
 
 /-- `WriteCSM` for one bucket: years of the records in request order, schema id of the request -/
-def write (items : Path) (schema : Nat) (years : List Int) (st : St) : St × Res :=
+def write (v : Variant) (items : Path) (schema : Nat) (years : List Int) (st : St) : St × Res :=
   match getTimeFrame items defaultCats with
   | .ok =>
     match (dlookup st items).bind (fun r => latest r.files) with
@@ -298,7 +351,7 @@ def write (items : Path) (schema : Nat) (years : List Int) (st : St) : St × Res
       match years with
       | [] => (st, .ok)
       | y0 :: _ =>
-        match addTimeBucket items defaultCats y0 schema st with
+        match addTimeBucket v items defaultCats y0 schema st with
         | (st', .ok) => writeYears items y0 years st'
         | (st', .exists_) => writeYears items y0 years st'
         | (st', .panicIndex) => (st', .panicIndex)
@@ -314,20 +367,20 @@ inductive Op
   | restart
 deriving DecidableEq, Repr
 
-def step (nowYear : Int) (st : St) : Op → St × Res
-  | .create items cats schema => create items cats nowYear schema st
-  | .write items schema years => write items schema years st
-  | .destroy items => removeTimeBucket items st
+def step (v : Variant) (nowYear : Int) (st : St) : Op → St × Res
+  | .create items cats schema => create v items cats nowYear schema st
+  | .write items schema years => write v items schema years st
+  | .destroy items => removeTimeBucket v.deepDelete items st
   | .restart => (restart st, .ok)
 
-def run (nowYear : Int) : St → List Op → St
+def run (v : Variant) (nowYear : Int) : St → List Op → St
   | st, [] => st
-  | st, op :: ops => run nowYear (step nowYear st op).1 ops
+  | st, op :: ops => run v nowYear (step v nowYear st op).1 ops
 
 /-- results of a history -/
-def results (nowYear : Int) : St → List Op → List Res
+def results (v : Variant) (nowYear : Int) : St → List Op → List Res
   | _, [] => []
-  | st, op :: ops => (step nowYear st op).2 :: results nowYear (step nowYear st op).1 ops
+  | st, op :: ops => (step v nowYear st op).2 :: results v nowYear (step v nowYear st op).1 ops
 
 /-! ## observations -/
 
